@@ -356,6 +356,9 @@ class Steps:
                         regs.append(Region(bs))
                 out.append(env.mk_op(n["id"], n["pure"], 0, [self.rv(ops, blks, x) for x in n["operands"]],
                                      n["restys"], regs))
+                if n.get("named"):   # results that already carry a name hint
+                    for res in out[-1].results:
+                        res.name_hint = "pre"
             env.limbo = [r for i, r in enumerate(limbo0) if i not in limbo_ks]
             return out
         return make
@@ -365,6 +368,9 @@ class Steps:
         env, rw = self.env, self.rw
         ops, blks = env.maps()
         k = tm[0]
+        if k == "sethint":   # Builder.name_hint property; not a rewriting call (the model skips it too)
+            rw.name_hint = "h" if tm[1] else None
+            return False
         if k in ("insert", "insert_op"):
             ok, ip, _ = self.ip_obj(ops, blks, tm[2])
             if not ok:
@@ -893,6 +899,8 @@ def q_tmpl(tm):
         return f"(TNotify {tm[1]})"
     if k == "createblock":
         return f"(TCreateBlock {tm[1]} {q_bp(tm[2])} {q_Zs(tm[3])})"
+    if k == "sethint":
+        return f"(TSetHint {coq_bool(bool(tm[1]))})"
     raise ValueError(k)
 
 
@@ -971,6 +979,12 @@ def direct_table_cases():
         (2, [["insert", [new_op(100, [A(1, 0)], [2], [["fresh", [{"id": 100, "argtys": [1], "body": [leaf(101, [R(1, 1)], [1])]}]]])], ["start", 1]]]),
         (2, [["insert", [new_op(100)], ["end", 2]]]),
         (2, [["insert_op", [new_op(100, [R(2, 0)])], ["end", 0]]]),
+        (8, [["sethint", 1], ["insert", [new_op(100, [R(1, 0)], [])], ["default"]]]),
+        (8, [["sethint", 1], ["insert", [new_op(100, [R(1, 0)], [1]), new_op(101, [], []), dict(new_op(102, [], [1, 2]), named=True)], ["before", 2]]]),
+        (8, [["sethint", 1], ["insert", [dict(new_op(100, [], [1]), named=True)], ["end", 2]], ["sethint", 0], ["insert", [new_op(101)], ["default"]]]),
+        (8, [["sethint", 1], ["replace", 8, [new_op(100, [R(3, 0)], [1]), new_op(101, [R(3, 0)], [])], None]]),
+        (2, [["sethint", 1], ["replace_matched_op", 2, [new_op(100), dict(new_op(101, [R(1, 1)], [1]), named=True)], None]]),
+        (2, [["sethint", 1], ["replace", 2, [new_op(100, [], [], [["fresh", [{"id": 100, "argtys": [], "body": [leaf(101)]}]]])], [R(1, 0)]]]),
         (8, [["erase", 8]]), (8, [["erase", 9]]), (8, [["erase", 3]]), (4, [["erase", 10]]), (5, [["erase", 5]]),
         (8, [["erase_op", 8]]), (8, [["erase", 5], ["erase", 4]]),
         (8, [["rauw", R(1, 0), R(9, 0)]]), (8, [["rauw", R(9, 0), R(1, 0)]]), (8, [["rauw", R(2, 0), R(2, 0)]]),
@@ -1115,7 +1129,14 @@ class ScriptGen:
                          rng.random() < 0.3) for _ in range(rng.randint(0, 2))]
             regs = [["fresh", [{"id": b, "argtys": [rng.randint(1, 3) for _ in range(nargs)], "body": body}]]]
         pure = not regs and rng.random() < 0.25
-        return new_op(self.fresh_op(), self.vals(rng.randint(0, 2), t), [rng.randint(1, 3) for _ in range(nres)], regs, pure)
+        n = new_op(self.fresh_op(), self.vals(rng.randint(0, 2), t), [rng.randint(1, 3) for _ in range(nres)], regs, pure)
+        if rng.random() < 0.2:
+            n["named"] = True
+        return n
+
+    def hint(self, steps):
+        """sometimes run the calls under an active rewriter.name_hint"""
+        return ([["sethint", 1]] + steps) if self.rng.random() < 0.35 else steps
 
     def steps(self, t):
         rng, ir = self.rng, self.ir
@@ -1138,11 +1159,11 @@ class ScriptGen:
             news = [self.mk_new(t, rng.randint(0, 2)) for _ in range(n - 1)] + [self.mk_new(t, info["nres"])]
             if rng.random() < 0.3 and info["nres"]:
                 news[-1]["operands"].append(R(0))
-            return [["replace", t, news, None]]
+            return self.hint([["replace", t, news, None]])
         if k == "replace_vals":
             res = [None if rng.random() < 0.1 else self.any_val(t) for _ in range(info["nres"])]
             news = [self.mk_new(t, rng.randint(0, 1))] if rng.random() < 0.3 else []
-            return [["replace", t, news, res]]
+            return self.hint([["replace", t, news, res]])
         if k == "rauw_erase":
             st = [["rauw", R(i), self.any_val(t)] for i in range(info["nres"])]
             return st + ([["erase", t]] if rng.random() < 0.7 else [])
@@ -1150,7 +1171,7 @@ class ScriptGen:
             news = [self.mk_new(t, rng.randint(0, 2)) for _ in range(rng.choice([1, 1, 2]))]
             if info["nres"] and rng.random() < 0.5:
                 news[0]["operands"].append(R(0))
-            return [["insert", news, self.ip(t)]]
+            return self.hint([["insert", news, self.ip(t)]])
         if k == "notify":
             return [["notify", t if rng.random() < 0.5 else self.any_op()]]
         if k == "retype":
@@ -1269,6 +1290,33 @@ def gen_chain_bases(rng, n):
     return bases
 
 
+def gen_tombstone_bases(rng, n):
+    """within one worklist drain: a match erases a still-pending op (a tombstone in the real Worklist),
+    then inserts several ops (pushed behind the tombstone); the inserted op that is visited first erases
+    another inserted, still pending op"""
+    bases = []
+    for _ in range(n):
+        k = rng.randint(4, 8)
+        cmds = [["op", i, False, 0, 0, [], [1] if rng.random() < 0.5 else [], 0] for i in range(1, k + 1)]
+        first = rng.randint(1, k)
+        victims = rng.sample([i for i in range(1, k + 1) if i != first], rng.randint(1, 2))
+        m = rng.randint(2, 4)
+        new_ids = list(range(101, 101 + m))
+        news = [new_op(i, [], [1] if rng.random() < 0.5 else []) for i in new_ids]
+        ip = rng.choice([["after", first], ["before", first], ["end", 0], ["default"]])
+        tb = [{"tag": first, "stage": 0, "guards": [],
+               "steps": [["erase", v] for v in victims] + [["insert", news, ip]]}]
+        for killer in rng.sample(new_ids, rng.randint(1, 2)):
+            others = [i for i in new_ids if i != killer]
+            tb.append({"tag": killer, "stage": 0, "guards": [],
+                       "steps": [["erase", rng.choice(others)]] + ([["erase", rng.choice(others)]] if rng.random() < 0.3 else [])})
+        if rng.random() < 0.5:
+            t = rng.choice([i for i in range(1, k + 1) if i != first])
+            tb.append({"tag": t, "stage": 0, "guards": [], "steps": [["insert", [new_op(120, [], [])], ["after", t]]]})
+        bases.append({"kind": "walk", "ir": cmds, "pats": [tb], "greedy": False, "dce": False})
+    return bases
+
+
 def expand(rng, base, cfgs):
     out = []
     for cfg in cfgs:
@@ -1307,6 +1355,8 @@ def run(ctx: Ctx):
         walks += expand(rng, base, [rng.choice(CONFIGS)])[rng.randrange(2):][:1]
     for base in gen_chain_bases(rng, 100 if thorough else 8):
         walks += expand(rng, base, [rng.choice(CONFIGS[1::2]), rng.choice(CONFIGS)])
+    for base in gen_tombstone_bases(rng, 150 if thorough else 14):
+        walks += expand(rng, base, [rng.choice(CONFIGS[1::2])])
     differential(ctx, DiffSpec("scripted-walks", REQ, walks, impl, coq_expr, holds, known, nontrivial, shard=60 if thorough else 30))
     hist = {}
     for c in direct + walks:
